@@ -377,6 +377,10 @@ func SessionC16(t *tape.Tape) *core.RunResult {
 			}
 			idle = 0
 		}
+		if !g.dead && s.blockedWork() > 25000 {
+			res.Violate("C16", "deadlock", s.steps, "after %q the command loop has been stuck while searches spent %d evaluations: it waits for something that is not coming", s.lastCmd, s.blockedWork())
+			g.dead = true
+		}
 		if s.outClosed && !s.inClosed && !g.quitSent && !g.mayExit {
 			res.Violate("C16", "driver-exited", s.steps, "the driver closed its output after %q although neither quit nor end of input nor an ill-formed line was sent", s.lastCmd)
 			g.dead = true
@@ -438,7 +442,16 @@ func SessionC16(t *tape.Tape) *core.RunResult {
 		}
 		g.quitSent = true
 	}
-	ok := s.settle(func() bool { g.judge(); return g.dead || s.outClosed }, 500)
+	stuck2 := false
+	ok := s.settle(func() bool {
+		g.judge()
+		stuck2 = stuck2 || s.blockedWork() > 25000
+		return stuck2 || g.dead || s.outClosed
+	}, 500)
+	if stuck2 && !g.dead {
+		res.Violate("C16", "no-clean-shutdown", s.steps, "after quit/end of input the driver is stuck while searches spent %d evaluations: it waits for a search nobody halts", s.blockedWork())
+		return finish()
+	}
 	if s.budgetHit {
 		res.Inconclusive["evaluation-budget"]++
 		return finish()
